@@ -1415,3 +1415,33 @@ mutant("c11-sshape-branches-swapped", "C11", (T, """            y <= h / 2.0,
 mutant("c11-sshape-lower-root", "C11", (T, """            s + (e - s) * np.sqrt(y / (2 * h)),
             e - (e - s) * np.sqrt((h - y) / (2 * h)),""", """            s + (e - s) * np.sqrt(y / h),
             e - (e - s) * np.sqrt((h - y) / (2 * h)),"""), "I1")
+
+# ------------------------------------------------------------------------------------------ C04 norms
+N = "fuzzylite/norm.py"
+mutant("c04-algebraic-product-square", "C04", (N, "        return a * b\n", "        return a * a\n"), "F")
+mutant("c04-bounded-difference-offset", "C04", (N, "return np.maximum(0, a + b - 1)", "return np.maximum(0, a + b - 0.5)"), "F")
+mutant("c04-drastic-product-condition", "C04", (N, "return np.where(np.maximum(a, b) == 1.0, np.minimum(a, b), 0.0)", "return np.where(np.minimum(a, b) == 1.0, np.minimum(a, b), 0.0)"), "F")
+mutant("c04-einstein-product-constant", "C04", (N, "return (a * b) / (2.0 - (a + b - a * b))", "return (a * b) / (3.0 - (a + b - a * b))"), "F")
+mutant("c04-hamacher-sum-factor", "C04", (N, "(a + b - 2.0 * a * b) / (1.0 - a * b)", "(a + b - a * b) / (1.0 - a * b)"), "F")
+mutant("c04-nilpotent-minimum-closed", "C04", (N, "return np.where(a + b > 1.0, np.minimum(a, b), 0.0)", "return np.where(a + b >= 1.0, np.minimum(a, b), 0.0)"), "F")
+mutant("c04-nilpotent-maximum-closed", "C04", (N, "return np.where(a + b < 1.0, np.maximum(a, b), 1.0)", "return np.where(a + b <= 1.0, np.maximum(a, b), 1.0)"), "F")
+mutant("c04-normalized-sum-floor", "C04", (N, "return (a + b) / np.maximum(1.0, a + b)", "return (a + b) / np.maximum(0.5, a + b)"), "F")
+mutant("c04-maximum-is-minimum", "C04", (N, "        return np.maximum(a, b)\n", "        return np.minimum(a, b)\n"), "F")
+mutant("c04-algebraic-sum-not-commutative", "C04", (N, "return a + b - (a * b)", "return a + b - (a * a)"), "L1")
+mutant("c04-einstein-sum-denominator", "C04", (N, "return (a + b) / (1.0 + a * b)", "return (a + b) / (1.0 + a + b)"), "F")
+equivalent("c04-eq-einstein-sum-reordered", "C04", (N, "return (a + b) / (1.0 + a * b)", "return (b + a) / (a * b + 1.0)"))
+equivalent("c04-eq-drastic-product-flipped", "C04", (N, "return np.where(np.maximum(a, b) == 1.0, np.minimum(a, b), 0.0)", "return np.where(1.0 == np.maximum(b, a), np.minimum(b, a), 0.0)"))
+equivalent("c04-eq-nilpotent-minimum-rearranged", "C04", (N, "return np.where(a + b > 1.0, np.minimum(a, b), 0.0)", "return np.where(a > 1.0 - b, np.minimum(a, b), 0.0)"))
+equivalent("c04-eq-hamacher-product-factored", "C04", (N, "(a * b) / (a + b - a * b)", "(a * b) / (a * (1.0 - b) + b)"))
+
+# ------------------------------------------------------------------------------------------ C05 hedges
+HG = "fuzzylite/hedge.py"
+mutant("c05-very-cube", "C05", (HG, "        y = x**2\n", "        y = x**3\n"), "F")
+mutant("c05-somewhat-identity", "C05", (HG, "        y = np.sqrt(x)\n", "        y = x\n"), "F")
+mutant("c05-extremely-branch-point", "C05", (HG, "y = np.where(x <= 0.5, 2 * x**2, 1 - 2 * (1 - x) ** 2)", "y = np.where(x <= 0.25, 2 * x**2, 1 - 2 * (1 - x) ** 2)"), "F")
+mutant("c05-seldom-factor", "C05", (HG, "np.sqrt(0.5 * x), 1 - np.sqrt(0.5 * (1 - x))", "np.sqrt(x), 1 - np.sqrt(0.5 * (1 - x))"), "F")
+mutant("c05-not-identity", "C05", (HG, "        y = 1 - x\n", "        y = x\n"), "F")
+mutant("c05-any-half", "C05", (HG, "y = np.full_like(x, 1.0)", "y = np.full_like(x, 0.5)"), "F")
+mutant("c05-extremely-upper-coefficient", "C05", (HG, "1 - 2 * (1 - x) ** 2)", "1 - (1 - x) ** 2)"), "F")
+equivalent("c05-eq-extremely-open-branch", "C05", (HG, "y = np.where(x <= 0.5, 2 * x**2,", "y = np.where(x < 0.5, x * x * 2,"))
+equivalent("c05-eq-seldom-division", "C05", (HG, "np.sqrt(0.5 * x), 1 - np.sqrt(0.5 * (1 - x))", "np.sqrt(x / 2), 1 - np.sqrt((1 - x) / 2)"))
